@@ -405,8 +405,8 @@ def text_as_read(ctx, crates):
                 ctx.ob(rule, key, not bad, ("the text given to %s passes through %s, which is not a copy of what was read: positions/values would be those of a rewritten text" % (sink.split("::")[-1], "; ".join(sorted(set(bad))[:3]))) if bad
                        else "%d calls on the slice, all copies or the read itself" % len(calls), fn=f, line=t.get("ln", 0),
                        sample={"site": k, "sink": sink, "calls": sorted(set(M.norm_path(c["fn"].get("path", "")).split("::")[-1] for c in calls))} if sink.endswith("Loader::load") else None)
-    if n_sites < 20:
-        ctx.lost(rule, rule + ":floor", "only %d parser call sites found (floor 20)" % n_sites)
+    if n_sites < 14 * len(crates):
+        ctx.lost(rule, rule + ":floor", "only %d parser call sites found (floor %d: 14 per crate copy)" % (n_sites, 14 * len(crates)))
 
 
 def run(ctx):
